@@ -332,7 +332,7 @@ func runC07(c *Ctx) {
 	r.Assume("the proxy processes one client's frames sequentially, so the model state at send time is the state the request must run in, pipelined or not")
 	r.Assume("a USE failing because a host is down during a scripted restart is not judged (only histories without restarts demand success)")
 	r.Require("echoes_checked", "histories", "simultaneous_use_histories")
-	n := c.Pick(120, 1500)
+	n := c.Pick(120, 12000)
 	for i := 0; i < n; i++ {
 		if c.Replay != nil && c.Replay["kind"] == "c07" {
 			if i != int(c.Replay["idx"].(float64)) {
